@@ -427,6 +427,12 @@ func c18GenMediatype(r *core.Rand) []byte {
 	word := func() {
 		n := 1 + r.Intn(8)
 		for i := 0; i < n; i++ {
+			if r.Chance(1, 12) {
+				// bytes outside ASCII (UTF-8 sequences whose lead bytes fall into 0xC0..0xDE, and lone high bytes):
+				// only ASCII letters have a lower case here
+				sb.WriteString(r.Pick([]string{"é", "É", "Ü", "ß", "Ω", "\xc3", "\xd0\x9f", "\xde", "\xc0", "\xff"}))
+				continue
+			}
 			sb.WriteByte("abcxyzABCXYZ0189-+.*"[r.Intn(20)])
 		}
 	}
